@@ -87,7 +87,7 @@ def run(ctx):
     for i in range(nmol):
         m = random_tree_mol(rng, rng.choice([4, 5, 6, 8, 12, 14]), p_ring=rng.choice([0.3, 0.6, 0.9]),
                             p_chiral=1.0, p_stereo=0.5, p_double=0.1, p_triple=0, p_bracket=0.3,
-                            ncomp=rng.choice([1, 1, 1, 2]), table=table)
+                            ncomp=rng.choice([1, 1, 1, 2, 3, 5]), table=table)
         for k in range(4):
             try:
                 s, order, tags, marks = spell(m, rng, mix_labels=rng.random() < 0.2,
